@@ -266,6 +266,7 @@ func c06T(b bool) c06Tri {
 
 func (t c06Tri) String() string { return [...]string{"false", "true", "unspecified"}[t] }
 
+var c06LenientDecimalRe = regexp.MustCompile(`^[+-]?([0-9]+\.?[0-9]*|\.[0-9]+)([eE][+-]?[0-9]+)?$`)
 var c06NumeralRe = regexp.MustCompile(`^-?[0-9]+(\.[0-9]+)?(e[+-]?[0-9]+)?$`)
 var c06IntSpelledRe = regexp.MustCompile(`^-?[0-9]+$`)
 
@@ -337,9 +338,10 @@ func c06NumeralRat(s string) (*big.Rat, bool) {
 // "the string is a decimal numeral denoting that number".
 func c06StrNum(s string, n c06V) c06Tri {
 	if !c06NumeralRe.MatchString(s) {
-		if c06GoParses(s) {
-			return c06Unspec // accepted by strconv but not a decimal numeral: statement silent (DESIGN C06)
+		if c06GoParses(s) && c06LenientDecimalRe.MatchString(s) {
+			return c06Unspec // "+5", "1E6", ".5", "5.": decimal, but a spelling the statement's "decimal numeral" may or may not include
 		}
+		// "0x10", "0b1", "inf", "NaN", "1_0", "0x1p4": accepted by strconv but not decimal numerals — never equal to a number
 		return c06False
 	}
 	r, ok := c06NumeralRat(s)
